@@ -248,6 +248,24 @@ type raceCase struct {
 	Hammer bool     `json:"hammer"`
 }
 
+// finalValue reads total["a"] through the metric object the VMs of this scenario write to (after
+// a reload the store holds a newer version of the metric, which only shares the label values that
+// existed when Store.Add copied them).
+func finalValue(s *scenario) int64 {
+	for _, m := range s.obj.Metrics {
+		if m.Name != "total" {
+			continue
+		}
+		m.RLock()
+		lv := m.FindLabelValueOrNil([]string{"a"})
+		m.RUnlock()
+		if lv != nil {
+			return datum.GetInt(lv.Value)
+		}
+	}
+	return -1
+}
+
 // hammer: two VMs of one program increment the same datum as fast as they can; only the
 // totals are logged ("bulk a n": actor a completed n increments) and the final value.
 func hammer(n int, c *raceCase) {
@@ -266,12 +284,7 @@ func hammer(n int, c *raceCase) {
 		_ = a
 	}
 	wg.Wait()
-	final := int64(-1)
-	if m := s.store.FindMetricOrNil("total", "c11.mtail"); m != nil {
-		if d, err := m.GetDatum("a"); err == nil {
-			final = datum.GetInt(d)
-		}
-	}
+	final := finalValue(s)
 	vh.Out(event{Seq: 1, Ev: "bulk", A: "vm", V: int64(c.Incs)})
 	vh.Out(event{Seq: 2, Ev: "bulk", A: "vm2", V: int64(c.Incs)})
 	vh.Out(event{Seq: 3, Ev: "final", A: "harness", V: final})
@@ -495,13 +508,7 @@ func atomicRun() {
 		close(stop)
 		wg.Wait()
 		// the value every reader now sees
-		final := int64(-1)
-		if m := s.store.FindMetricOrNil("total", "c11.mtail"); m != nil {
-			if d, err := m.GetDatum("a"); err == nil {
-				final = datum.GetInt(d)
-			}
-		}
-		lg.note("final", "harness", final)
+		lg.note("final", "harness", finalValue(s))
 		for _, e := range lg.ev {
 			vh.Out(e)
 		}
